@@ -6,6 +6,7 @@ from fractions import Fraction
 
 import numpy as np
 
+from harness.translate import translator_obligations
 from harness.common import f2hex, hex2f, q2s, s2q, run_driver, lean_obligations, ulps
 
 MODULE = 'Ndt.Props.C07'
@@ -71,6 +72,7 @@ def model_rule(cfgs, tag):
 def run(ctx):
     from numdifftools import extrapolation as ex
     from numdifftools.extrapolation import Richardson
+    translator_obligations(ctx, ['richerr.'])
     lean_obligations(ctx, MODULE, THEOREMS)
     rng = ctx.rng
 
